@@ -10,6 +10,7 @@ fn main() {
         "component" => components::run(&mut ctx, &args[2..]),
         #[cfg(not(feature = "sym"))]
         "prove_component" => components::prove(&mut ctx, &args[2..]),
+        "verify_labels" => protocol::run_verify_labels(&mut ctx, &args[2..]),
         "verify" => protocol::run_verify(&mut ctx, &args[2..]),
         "kernels" => kernels::run(&mut ctx, &args[2..]),
         "kzg" => kernels::run_kzg(&mut ctx, &args[2..]),
